@@ -1172,6 +1172,7 @@ func (ps *prodScen) checkRouting(mi *msgInfo, partition int32, success bool) {
 	}
 	if !ok {
 		ps.r.violate("C17.wrong-partition", "m%d: partitioner chose index %d of %d (consistency=%v) but the message was reported on partition %d; views: %v", mi.id, pc.choice, pc.n, pc.consistent, partition, ps.views)
+		ps.r.violate("C04.wrong-place", "m%d is reported on partition %d, which is not the partition its partitioner chose (index %d of %d offered, consistency=%v)", mi.id, partition, pc.choice, pc.n, pc.consistent)
 	}
 }
 
